@@ -23,12 +23,42 @@ def sh(cmd, **kw):
     return subprocess.run(cmd, shell=True, text=True, capture_output=True, **kw)
 
 
+def run_in_worktree(sdir, patch, checks, tier):
+    """default mode: scratch worktree of /repo's HEAD + VERIF_REPO/VERIF_OUT, so several seeds can be tried in parallel
+    and neither /repo nor /verif/evidence is touched"""
+    sid = os.path.basename(sdir.rstrip("/"))
+    wt, out = f"/tmp/seedrun_{sid}_{os.getpid()}", f"/tmp/seedrun_{sid}_{os.getpid()}_out"
+    sh(f"git -C {REPO} worktree add --detach {wt} HEAD")
+    results = {}
+    try:
+        r = sh(f"git -C {wt} apply {patch}")
+        if r.returncode:
+            sys.exit(f"patch does not apply: {r.stderr}")
+        for c in checks:
+            t0 = time.time()
+            env = dict(os.environ, VERIF_TIER=tier, VERIF_REPO=wt, VERIF_OUT=out)
+            p = subprocess.run(["/venv/bin/python", os.path.join(ROOT, "run.py"), c, "--tier", tier], text=True, capture_output=True,
+                               env=env, cwd=ROOT)
+            viol = [l for l in p.stdout.splitlines() if l.startswith("VIOLATION")]
+            results[c] = {"exit": p.returncode, "violations": len(viol), "first": viol[:3], "wall_s": round(time.time() - t0, 1)}
+            print(f"{sid} {c} tier={tier} exit={p.returncode} violations={len(viol)} wall={results[c]['wall_s']}s", flush=True)
+            for v in viol[:3]:
+                print("    " + v[:260].replace(out, "<out>"), flush=True)
+            if p.returncode not in (0, 1):
+                print("    stderr: " + p.stderr[-800:])
+    finally:
+        sh(f"git -C {REPO} worktree remove --force {wt}")
+        sh(f"rm -rf {out}")
+    print(json.dumps(results))
+
+
 def main():
     ap = argparse.ArgumentParser()
     ap.add_argument("seed")
     ap.add_argument("--tier", default="quick")
     ap.add_argument("--checks")
     ap.add_argument("--all", action="store_true")
+    ap.add_argument("--inplace", action="store_true", help="apply to /repo itself (exclusive) instead of a scratch worktree")
     args = ap.parse_args()
     sdir = args.seed if os.path.isdir(args.seed) else os.path.join(ROOT, "seeded", args.seed)
     patch = os.path.join(sdir, "patch.diff")
@@ -39,6 +69,8 @@ def main():
         checks = args.checks.split(",")
     else:
         checks = [meta["property"]]
+    if not args.inplace:
+        return run_in_worktree(sdir, patch, checks, args.tier)
     dirty = sh(f"git -C {REPO} status --porcelain --untracked-files=no").stdout.strip()
     if dirty:
         sys.exit(f"/repo is not clean:\n{dirty}")
